@@ -1828,6 +1828,11 @@ static void janet_ev_setup_selfpipe(void) {
     if (janet_make_pipe(janet_vm.selfpipe, 1)) {
         JANET_EXIT("failed to initialize self pipe in event loop");
     }
+    /* Mode 1 leaves the write end inheritable because it is usually meant for a child process. This pipe
+     * belongs to the event loop alone: a child that inherited it could fill it and stall the loop. */
+    if (fcntl(janet_vm.selfpipe[1], F_SETFD, FD_CLOEXEC)) {
+        JANET_EXIT("failed to initialize self pipe in event loop");
+    }
 }
 
 /* Handle events from the self pipe inside the event loop */
